@@ -103,6 +103,13 @@ func concatStr(a, b str) str {
 	return str{b: r}
 }
 
+// lazyArr is a byte array whose element at a (possibly symbolic) index is given by a function of the
+// index term; used for the 4096-byte window of BufferedFile in the C07 lemma (no ITE chain, no SMT arrays).
+type lazyArr struct {
+	n   int
+	get func(idx *Term) *Term
+}
+
 type structure []value
 type array []value
 type tuple []value
